@@ -11,7 +11,8 @@ THEOREMS = ['C06_feed_tracks_coord', 'C06_advance_to_tracks_coord', 'C06_from_te
             'C06_empty_child_example',
             'C06_propagate_regenerated', 'C06_propagate_no_attribute_error', 'C06_pp_alias_safe', 'C06_fork_keeps_counter',
             'C06_lexer_coords_fork', 'C06_recover_skip_tracks_coord', 'C06_lexer_coords_recovering',
-            'C06_token_plumbing_keeps_positions', 'C06_recover_example']
+            'C06_token_plumbing_keeps_positions', 'C06_recover_example', 'C06_tree_coords_exact_earley',
+            'C06_dyn_tree_coords', 'C06_dyn_tree_example']
 GEN_DEPS = ['LineCounter', 'LexStep', 'DynStep', 'PropPos', 'TokenFields', 'CounterCopy']
 RULE = ('random token-soup grammars (1-4 kept + 0-2 ignored terminals from a regex fragment, 1-2 newline-capable '
         'terminals spelled \\n, \\r?\\n, [\\n], \\s, [^...], \\W, \\D, [\\t-\\r], (?s:.), \\x0a, [\\x00-\\x1f], global DOTALL; '
@@ -20,7 +21,12 @@ RULE = ('random token-soup grammars (1-4 kept + 0-2 ignored terminals from a reg
         'arbitrary positions x {lalr/basic, lalr/contextual, earley/basic, earley/dynamic, earley/dynamic_complete} x '
         '{str, bytes} x {whole text, TextSlice window of prefix+text+suffix} x {parse, lex, lex(dont_ignore), scan}; '
         'non-trivial = distinct (grammar, configuration, representation, window, api, text) producing >= 2 tokens one '
-        'of which lies on line >= 2')
+        'of which lies on line >= 2; [round 12, always run] forks: parse_interactive + k tokens + copy()/copy.copy/'
+        'as_immutable, the FORK lexing the rest, k = 0, 1, n and the first/last mid-line token of every line >= 2, '
+        'str/bytes/windows, basic/contextual; on_error recovery: grammars without a newline terminal x inputs with stray '
+        'unlexable characters incl. newlines, handler accepting every UnexpectedCharacters; callable propagate_positions '
+        '(6 named filters) under lalr/contextual, earley/basic, earley/dynamic; __lark_meta__ children produced by an '
+        'embedded transformer (one answering None)')
 TRUSTED_BASE = ['coq/Pos/PosBase.v: reading of str/bytes count, rindex, index, slicing as list functions (validated on '
                 'every recorded LineCounter call)',
                 'translator/gen_positions.py templates pin the statement skeletons of LineCounter.__init__/feed/advance_to/'
@@ -28,8 +34,15 @@ TRUSTED_BASE = ['coq/Pos/PosBase.v: reading of str/bytes count, rindex, index, s
                 'token.end_* assignments of xearley.Parser._parse',
                 'Python re is an oracle (scan): only "a match of length n at pos inside [pos, endpos)" is assumed; lexer '
                 'callbacks other than the type-only UnlessCallback are not modelled',
-                'PropagatePositions model (coq/Pos/MetaSpan.v) is hand-written and tied by correspondence only; '
-                '__lark_meta__ children and a callable propagate_positions filter are not modelled']
+                'translator/gen_positions.py (round 12) also pins PropagatePositions.__init__/__call__/_pp_get_meta, '
+                'make_propagate_positions, Meta, Tree.__init__/meta, Token._future_new/__new__/new_borrow_pos/_future_update/'
+                '__deepcopy__/__reduce__, UnexpectedCharacters.__init__ (line/column/pos_in_stream), LineCounter.__slots__ and its '
+                'copy protocol, LexerState/LexerThread.__copy__, LALR_Parser.parse (on_error loop), and rejects any write to a '
+                'LineCounter field outside class LineCounter anywhere under lark/',
+                'coq/Pos/RawMeta.v: reading of getattr(src, name, default) with an eagerly evaluated default, hasattr, and of '
+                'the three-way classification of children in _pp_get_meta; a Token attribute that is None is outside the model',
+                'Earley routes: the derivation handed to the callbacks is any derivation tree over the lexer tokens; the forest '
+                'walk itself (which derivation) is C03/C05/C20 business']
 ASSUMPTIONS = ['input is ASCII/latin-1 (one character = one byte); newline is "\\n"',
                'meta_span holds inside the class [good]: an inlined ?rule that returns a bare Token matched no other '
                '(filtered) token - outside it finding F23 applies']
